@@ -40,6 +40,7 @@ const prelude = `
 (assert (forall ((a Str) (b Str) (o Int) (l Int)) (! (and (=> (and (= o 0) (= l (slen a))) (= (mkstr (sarr (sconcat a b)) o l) a)) (=> (and (= o (slen a)) (= l (slen b))) (= (mkstr (sarr (sconcat a b)) o l) b))) :pattern ((mkstr (sarr (sconcat a b)) o l)))))
 (assert (forall ((a Str) (b Str)) (! (= (slen (sconcat a b)) (+ (slen a) (slen b))) :pattern ((sconcat a b)))))
 (assert (forall ((a Str) (b Str) (c Str)) (! (=> (= (sconcat a b) (sconcat a c)) (= b c)) :pattern ((sconcat a b) (sconcat a c)))))
+(assert (forall ((a Str) (b Str) (c Str)) (! (=> (and (= (sconcat a c) (sconcat b c))) (= a b)) :pattern ((sconcat a c) (sconcat b c)))))
 (assert (forall ((a Str) (b Str) (j Int)) (! (=> (and (<= 0 j) (< j (+ (slen a) (slen b)))) (= (select (sarr (sconcat a b)) j) (ite (< j (slen a)) (select (sarr a) j) (select (sarr b) (- j (slen a)))))) :pattern ((select (sarr (sconcat a b)) j)))))
 `
 
@@ -672,6 +673,13 @@ func init() {
 		st.store[b.DB] = MapC{Has: f.nameIt(st, "dbhas", Ite(isOK, after.Has, before.Has)), Val: f.nameIt(st, "dbval", Ite(isOK, after.Val, before.Val)), Card: Ite(isOK, after.Card, before.Card)}
 		f.in.note("database.Batch: Put/Delete are collected and applied atomically, in order, by Write")
 		return []Val{Sc{e}}
+	}
+	externs[db+"PackUInt64"] = func(f *Frame, call *ast.CallExpr, recv Val, args []Val, st *State) []Val {
+		in := f.in
+		reg := in.newCell("packu64", CRegion, types.Typ[types.Uint8])
+		in.load(st, reg, f)
+		f.writeBE(reg, IntLit(0), args[0].(Sc).T, 8, st)
+		return []Val{SliceV{Reg: reg, Off: IntLit(0), Len: IntLit(8), Cap: IntLit(8), Nil: TFalse}}
 	}
 	externs[db+"ParseUInt64"] = func(f *Frame, call *ast.CallExpr, recv Val, args []Val, st *State) []Val {
 		in := f.in
